@@ -173,6 +173,8 @@ def _shares(ctx: Ctx) -> None:
     identifiers, indexes that disagree between shares or between groups, in a drawn order."""
     from btclib.mnemonic import slip39  # noqa: PLC0415
 
+    # iteration exponents stay <= 3: the format allows 15, which is 10000 * 2^15 PBKDF2 iterations by the letter of
+    # SLIP39 -- minutes of honest work and not a hang (a false alarm of the no-hang budget, found by the thorough tier)
     ch = ctx.ch
     base = {
         "identifier": ch.draw(1 << 15, "sh.id"), "extendable": bool(ch.draw(2, "sh.ext")), "iteration_exponent": ch.draw(3, "sh.exp"),
@@ -187,7 +189,7 @@ def _shares(ctx: Ctx) -> None:
         f["member_index"] = ch.draw(4, "sh.mi")
         f["value"] = ch.nbytes(ch.pick([16, 16, 32, 32, 18, 20, 24, 64, 34], "sh.len"), "sh.value")
         for name, draw in (  # one field in three disagrees with the rest of the set
-            ("identifier", lambda: ch.draw(1 << 15, "sh.id2")), ("extendable", lambda: bool(ch.draw(2, "sh.ext2"))), ("iteration_exponent", lambda: ch.draw(16, "sh.exp2")),
+            ("identifier", lambda: ch.draw(1 << 15, "sh.id2")), ("extendable", lambda: bool(ch.draw(2, "sh.ext2"))), ("iteration_exponent", lambda: ch.draw(4, "sh.exp2")),
             ("group_threshold", lambda: 1 + ch.draw(4, "sh.gt2")), ("group_count", lambda: 1 + ch.draw(16, "sh.gc2")), ("member_threshold", lambda: 1 + ch.draw(16, "sh.mt2")),
         ):
             if ch.draw(9, "sh.odd?") == 0:
